@@ -13,7 +13,11 @@
       alignment test  `start % cs`, `stop % cs`, `stop == shape[i]`   misaligned
       zarr refuses the slice (step < 1)                     badStepAxis
       `source.shape != indexer.shape`                       shapeMismatchAxis
-      (all of them, n-D, in the code's order)               validate                 (Verdict)
+      (all of them, n-D, in the code's order)               validate                 (Verdict)   [before ba97b91]
+      steps refused, bounds normalised, alignment on the
+      normalised bounds, shape, len(region)                 normalizeAxis, accept, acceptReq   [after ba97b91]
+      source rechunked to the target chunks                 rechunkToTarget, prepare, prepare1
+      the fixed branch = old pipeline on the prepared input storeRegion, storeAxis
       block_offsets = start // cs  (0 for None)             blockOffset
       back_key_function  bi - off                           srcBlockOf
       OutputBlocksIterable (OrthogonalIndexer product)      axisBlocks, outputBlocks
@@ -28,7 +32,8 @@
       contents after the writes                             applyPairs;  Python's `t[sl] = s`: expectedAxis, InRegion
   ops._store_array, no-region branch, computed source
       (blockwise identity with the source's chunks,
-       slot computed against the target's extent)           copyBlocks, copyTask, runCopy; validateNoRegion
+       slot computed against the target's extent)           copyBlocks, copyTask, runCopy; validateNoRegionOld
+      shape check + rechunk of unaligned sources (d416aac)  validateNoRegion, copyChunk, storeCopy
   ops.store: len checks, region tuple vs list, zip          pairUp                   (RegionsArg, PairErr)
   ops.store loop over _store_array + compute_arrays:
       in-place re-targeting of lazy sources, read proxies
@@ -128,8 +133,11 @@ inductive Verdict where
   | misaligned
   /-- ValueError "Source array shape … does not match region shape …" -/
   | shapeMismatch
-  /-- the zarr indexer refuses the slice (step < 1); not a cubed check -/
+  /-- the slice step is refused: by the zarr indexer (step < 1) before the fix, by
+  `_store_array` itself ("must not have steps other than 1") after it -/
   | badStep
+  /-- ValueError "Region … must be a tuple of n slices" (after the fix) -/
+  | badRegion
   deriving DecidableEq, Repr
 
 /-- the zarr indexer refuses the axis' slice -/
@@ -287,6 +295,47 @@ def nonNegBounds (a : Axis) : Bool :=
 block that fits into one target chunk (the code never compares the chunkings) -/
 def chunksAgree (a : Axis) : Bool := a.sc == a.cs || (decide (a.m ≤ a.sc) && decide (a.m ≤ a.cs))
 
+/-! ## The region branch after commit ba97b91
+
+`validate` / `blockOffset` / `runRegion` above are the branch as it was; the fixed code first refuses steps, *normalises*
+the region with `slice.indices`, tests the alignment on the normalised bounds, and — after the shape test —
+rechunks the source to the target's chunks; then the same pipeline runs on the normalised region. -/
+
+/-- `region = tuple(slice(*sl.indices(n)[:2]) …)` -/
+def normalizeAxis (a : Axis) : Axis :=
+  { a with sl := ⟨some (startOf a.sl a.n : Nat), some (stopOf a.sl a.n : Nat), none⟩ }
+
+/-- `sl.step not in (None, 1)` -/
+def stepBad (a : Axis) : Bool := !stepOne a
+
+/-- The build-time checks of the fixed region branch, in the code's order: steps, alignment of the normalised
+bounds, shape. -/
+def accept (axes : List Axis) : Verdict :=
+  if axes.any stepBad then .badStep
+  else if axes.any (fun a => misaligned (normalizeAxis a)) then .misaligned
+  else if axes.any shapeMismatchAxis then .shapeMismatch
+  else .ok
+
+/-- … preceded by `len(region) != len(shape)`. -/
+def acceptReq (ndim regionLen : Nat) (axes : List Axis) : Verdict :=
+  if regionLen ≠ ndim then .badRegion else accept axes
+
+/-- `source.rechunk(to_chunksize(normalize_chunks(target.chunks, source.shape)))` unless the source is empty:
+afterwards the source chunk size is `min cs m` along every axis (also when no rechunk was needed). -/
+def rechunkToTarget (axes : List Axis) : List Axis :=
+  if axes.all (fun a => decide (0 < a.m)) then axes.map (fun a => { a with sc := min a.cs a.m }) else axes
+
+def prepare (axes : List Axis) : List Axis := rechunkToTarget (axes.map normalizeAxis)
+
+/-- one axis of `prepare` -/
+def prepare1 (a : Axis) : Axis :=
+  if 0 < a.m then { normalizeAxis a with sc := min a.cs a.m } else normalizeAxis a
+
+/-- The region op of an accepted request as the fixed code builds it, executed sequentially. -/
+def storeRegion (axes : List Axis) : Run (List Nat) := runRegion (prepare axes)
+
+def storeAxis (a : Axis) : Run Nat := runAxis (prepare1 a)
+
 /-! ## No-region branch, computed (non-lazy) source: blockwise identity with the source's chunks -/
 
 /-- number of blocks of a length-`m` axis with chunk size `sc` (`normalize_chunks`) -/
@@ -305,8 +354,18 @@ def copyTask (m sc n b : Nat) : AxisTask :=
 def runCopy (m sc n : Nat) : Run Nat :=
   runTasks (fun b => (copyTask m sc n b).toExcept) (List.range (copyBlocks m sc))
 
-/-- The no-region branch has no shape check at all. -/
-def validateNoRegion (_m _n : Nat) : Verdict := .ok
+/-- Before commit d416aac the no-region branch had no shape check at all. -/
+def validateNoRegionOld (_m _n : Nat) : Verdict := .ok
+
+/-- `if source.shape != target.shape: raise ValueError` (existing storage target, commit d416aac). -/
+def validateNoRegion (m n : Nat) : Verdict := if m ≠ n then .shapeMismatch else .ok
+
+/-- The chunk size the copy runs with: when the source chunk is neither a multiple of the stored target chunk
+`tc` nor spans the axis (`sc % tc == 0 or sc >= n`), the source is rechunked to the target chunks first. -/
+def copyChunk (m sc tc : Nat) : Nat := if sc % tc == 0 || decide (m ≤ sc) then sc else tc
+
+/-- The no-region store of a length-`m` source (chunk `sc`) into an existing length-`m` array with stored chunk `tc`. -/
+def storeCopy (m sc tc : Nat) : Run Nat := runCopy m (copyChunk m sc tc) m
 
 /-! ## `store`: pairing of sources, targets and regions -/
 
@@ -343,6 +402,13 @@ structure Arrays where
   lazy : Nat → Bool
   /-- lazy arrays whose storage the plan of `a` reads; the read location was captured when `a` was built -/
   deps : Nat → List Nat
+  /-- per target *location*: its stored chunks are the chunksize of the source stored there.  A lazy source
+  re-targeted into an existing array chunked differently (allowed when its chunks are multiples of the stored
+  ones) is afterwards read back by the *stored* chunking, so a later op built on it gets blocks of the wrong shape. -/
+  sameChunks : Nat → Bool := fun _ => true
+  /-- per target *location*: it is an existing storage array (not a path that `lazy_zarr_array` will create).  A lazy
+  source re-targeted there has `_zarray` = a storage array afterwards, so later pairs treat it as a computed source. -/
+  existing : Nat → Bool := fun _ => false
 
 /-- One pair after `pairUp` and the per-pair checks. -/
 structure Pair where
@@ -372,12 +438,19 @@ inductive Job where
   | copy (src : Nat) (readAt : Option Nat) (tgt : Nat)
   deriving DecidableEq, Repr
 
+/-- `isinstance(source._zarray, LazyZarrArray)` at the time a pair is processed -/
+def lazyNow (A : Arrays) (mv : Moves) (s : Nat) : Bool :=
+  A.lazy s && (match movedTo mv s with | some l => !A.existing l | none => true)
+
+/-- the pair re-targets its source in place (no region, source still lazy) -/
+def isMoveAt (A : Arrays) (mv : Moves) (p : Pair) : Bool := !p.region && lazyNow A mv p.src
+
 /-- The `for source, target, region in zip(...)` loop: `Except` index of the first rejected pair. -/
 def buildJobs (A : Arrays) : List Pair → Moves → Nat → Except Nat (List Job × Moves)
   | [], mv, _ => .ok ([], mv)
   | p :: ps, mv, k =>
     if !p.accepted then .error k
-    else if !p.region && A.lazy p.src then
+    else if isMoveAt A mv p then
       match buildJobs A ps (retarget mv p.src p.tgt) (k + 1) with
       | .error e => .error e
       | .ok (js, mv') => .ok (.moved p.src p.tgt :: js, mv')
@@ -407,9 +480,10 @@ inductive Outcome where
 def depsIntact (A : Arrays) (final : Moves) (a : Nat) : Bool :=
   (A.deps a).all (fun d => (movedTo final d).isNone)
 
-/-- the location a copy op was built to read is the one the source's op finally writes -/
+/-- the location a copy op was built to read is the one the source's op finally writes — and, when that is a
+location the source was re-targeted to, one that is chunked like the source -/
 def readOk (A : Arrays) (final : Moves) (s : Nat) (readAt : Option Nat) : Bool :=
-  !A.lazy s || readAt == movedTo final s
+  !A.lazy s || (readAt == movedTo final s && (match readAt with | none => true | some l => A.sameChunks l))
 
 def jobStale (A : Arrays) (final : Moves) : Job → Bool
   | .moved s _ => !depsIntact A final s
